@@ -6,11 +6,21 @@ pymeeus/{Mercury,...,Neptune,Earth}.py) their meaning.  Hand-written, one text, 
   Gen/R/Finders.lean  (Num = ℝ     : the theorems of Props/C13.lean)
   Gen/F/Finders.lean  (Num = Float : compared bit for bit with CPython on every finder)
 Each definition follows the common Python text of the finders statement by statement.
+
+Composition with the calendar models of the other templates (nothing of the calendar is re-modelled here):
+  `epoch.year()`      templates/EpochCal.lean `year` (+ EpochCore `get_date`): GenF.year in binary64; in the
+                      real-number instantiation the query `_jde` is a rational (every binary64 is one) and the
+                      year is GenQ.year, the exact instantiation of the same text, cast to ℝ;
+  `Epoch(to_return)`  templates/EpochOps.lean `Epoch.init (.number x)`, instantiated at ℝ and at Float.
 -/
 import Pymeeus.Pre@K@
 import Pymeeus.Gen.FinderData
+import Pymeeus.Gen.@K@.EpochOps
 --@only F
-import Pymeeus.Gen.F.EpochCore
+import Pymeeus.Gen.F.EpochCal
+--@end
+--@only R
+import Pymeeus.Gen.Q.EpochCal
 --@end
 namespace Pymeeus.Gen@K@
 open Pymeeus Pymeeus.P@K@ Pymeeus.Finders
@@ -135,92 +145,48 @@ def pa_jde (r : PAFinder) (k : Num) (perihelion : Bool) : Num :=
   | none => jde
   | some e => jde + evalE k 0 aux e      -- jde += corr
 
---@only F
-/-- `Epoch(jde)`: `set` stores `jde`, calls `get_full_date()` and recomputes the JDE from the
-    date (Epoch.py:332-376, 1455-1461).  Returns the stored `_jde`. -/
-def epoch_of_jde (jde : Num) : PyRes Num :=
-  match get_date jde with
-  | .error e => .error e
-  | .ok (y, m, d) =>
-    -- r = d % 1; d = int(d); h = int(r * 24.0); r = r * 24 - h; mi = int(r * 60.0); s = 60.0 * (r * 60.0 - mi)
-    let r := pmod d 1
-    let di : Int := ptrunc d
-    let h : Int := ptrunc (r * 24.0)
-    let r := r * 24 - ofInt h
-    let mi : Int := ptrunc (r * 60.0)
-    let s := 60.0 * (r * 60.0 - ofInt mi)
-    -- day += hours / DAY2HOURS + minutes / DAY2MIN + sec / DAY2SEC
-    let day := ofInt di + (ofInt h / 24.0 + ofInt mi / 1440.0 + s / 86400.0)
-    -- self._jde = self._compute_jde(year, month, day, utc2tt=False)   (... return jde + deltasec / DAY2SEC)
-    .ok (compute_jde y m day + 0.0 / 86400.0)
+/-! ### The whole finder: `epoch.year()`, the finder, `Epoch(to_return)` -/
 
-/-- `datetime.date(y, m, d).timetuple().tm_yday` (stub of the standard library, proleptic Gregorian calendar,
-    years 1..9999; `ValueError` for a date that does not exist).  Validated by the correspondence run. -/
-def tm_yday (y m d : Int) : PyRes Int :=
-  let ml : Int := if m = 2 ∧ calendar_isleap y then 29 else maxdays.getD (m - 1).toNat 0
-  if y < 1 ∨ 9999 < y ∨ m < 1 ∨ 12 < m ∨ d < 1 ∨ ml < d then .error .valueError
-  else
-    let before : Int := ((List.range (m - 1).toNat).map fun i =>
-      if i = 1 ∧ calendar_isleap y then (29 : Int) else maxdays.getD i 0).foldl (· + ·) 0
-    .ok (before + d)
-
-/-- `Epoch.fnd_get_doy(yyyy, mm, dd)` (Epoch.py:752) for int `yyyy`, `mm` and float `dd`. -/
-def fnd_get_doy (yyyy mm : Int) (dd : Num) : PyRes Num :=
-  -- if dd < 1 or dd >= 32 or mm < 1 or mm > 12: raise ValueError
-  if plt dd 1 || ple 32 dd || decide (mm < 1) || decide (mm > 12) then .error .valueError
-  else
-    -- day = int(dd); frac = dd % 1
-    let day : Int := ptrunc dd
-    let frac := pmod dd 1
-    if yyyy > 1582 then
-      -- d = datetime.date(yyyy, mm, day) (ValueError -> ValueError); doy = d.timetuple().tm_yday
-      match tm_yday yyyy mm day with
-      | .error e => .error e
-      | .ok doy => .ok (ofInt doy + frac)        -- float(doy + frac)
-    else
-      -- leap = Epoch.is_leap(yyyy); maxdays = [...]; if day > maxdays[int(mm) - 1]: raise ValueError
-      let leap := is_leap yyyy
-      let ml : Int := if mm = 2 then (if leap then 29 else 28) else maxdays.getD (mm - 1).toNat 0
-      if day > ml then .error .valueError
-      else
-        -- k = 1 if leap else 2
-        let k : Int := if leap then 1 else 2
-        -- doy = (iint((275.0 * mm) / 9.0) - k * iint((mm + 9.0) / 12.0) + day - 30.0)
-        let doy : Num := ofInt (pfloor ((275.0 * ofInt mm) / 9.0) - k * pfloor ((ofInt mm + 9.0) / 12.0) + day) - 30.0
-        -- if yyyy == 1582 and (mm > 10 or (mm == 10 and day >= 15)): doy -= 10.0
-        let doy := if yyyy = 1582 ∧ (mm > 10 ∨ (mm = 10 ∧ day ≥ 15)) then doy - 10.0 else doy
-        .ok (doy + frac)
-
-/-- `Epoch.year()` (Epoch.py:1775) of an epoch with the given `_jde`. -/
-def epoch_year (jde : Num) : PyRes Num :=
-  -- y, m, d = self.get_date(); doy = Epoch.fnd_get_doy(y, m, d)
-  match get_date jde with
-  | .error e => .error e
-  | .ok (y, m, d) =>
-    match fnd_get_doy y m d with
-    | .error e => .error e
-    | .ok doy =>
-      -- doy -= 1; days_of_year = 365.0; if self.leap(): days_of_year = 366.0; return y + doy / days_of_year
-      let doy := doy - 1
-      let days_of_year : Num := if is_leap y then 366.0 else 365.0
-      .ok (ofInt y + doy / days_of_year)
-
-/-- The whole finder from `y = epoch.year()`: `Epoch(jde0 + corr).jde()` and, for the elongation
-    finders, the angle in degrees. -/
-def finder_epoch (r : Finder) (y : Num) : PyRes (Num × Option Num) :=
+/-- The finder from `y = epoch.year()` to the returned objects: `Epoch(jde0 + corr)` (the constructor of
+    templates/EpochOps.lean: it stores the number, reads it back with `get_full_date` and recomputes the JDE)
+    and, for the elongation finders, the angle in degrees. -/
+def finder_epoch (r : Finder) (y : Num) : PyRes (Epoch × Option Num) :=
   match finder_raw r y with
   | .error e => .error e
   | .ok j =>
-    match epoch_of_jde j with
+    -- return Epoch(to_return)[, elon]
+    match Epoch.init (.number j) with
     | .error e => .error e
-    | .ok je => .ok (je, finder_elon r (finder_k r y))
+    | .ok ep => .ok (ep, finder_elon r (finder_k r y))
 
-/-- The whole finder from the query epoch's `_jde`: `epoch.year()` first (an error of `year()` propagates, as in
-    Python, where the call is the first statement after the type guard), then the finder. -/
-def finder_from_jde (r : Finder) (jde : Num) : PyRes (Num × Option Num) :=
-  match epoch_year jde with
+--@only F
+/-- The whole finder from the `_jde` of the query epoch: `y = epoch.year()` is the first statement after the
+    type guard, so an error of `year()` propagates; then the finder. -/
+def finder_from_jde (r : Finder) (jde : Num) : PyRes (Epoch × Option Num) :=
+  match year jde with
   | .error e => .error e
   | .ok y => finder_epoch r y
+
+/-- The first approximation of `perihelion_aphelion` from the `_jde` of the query epoch. -/
+def pa_from_jde (r : PAFinder) (jde : Num) (perihelion : Bool) : PyRes Num :=
+  match year jde with
+  | .error e => .error e
+  | .ok y => .ok (pa_jde r (pa_k r y perihelion) perihelion)
+--@end
+--@only R
+/-- The whole finder from the `_jde` of the query epoch, a rational number.  `Epoch.year()` is evaluated in
+    the exact rational instantiation of templates/EpochCal.lean (GenQ.year; its theorems are in Props/C16.lean),
+    the rest over ℝ. -/
+def finder_from_jde (r : Finder) (jde : ℚ) : PyRes (Epoch × Option ℝ) :=
+  match GenQ.year jde with
+  | .error e => .error e
+  | .ok y => finder_epoch r ((y : ℚ) : ℝ)
+
+/-- The first approximation of `perihelion_aphelion` from the `_jde` of the query epoch. -/
+def pa_from_jde (r : PAFinder) (jde : ℚ) (perihelion : Bool) : PyRes ℝ :=
+  match GenQ.year jde with
+  | .error e => .error e
+  | .ok y => .ok (pa_jde r (pa_k r ((y : ℚ) : ℝ) perihelion) perihelion)
 --@end
 
 end Pymeeus.Gen@K@
